@@ -6,6 +6,7 @@ import (
 	"go/constant"
 	"go/token"
 	"go/types"
+	"strings"
 
 	"golang.org/x/tools/go/ssa"
 )
@@ -2490,7 +2491,7 @@ func runR096(c *Ctx) {
 func init() {
 	register(&Rule{
 		ID: "R06.7", Props: []string{"C06", "C02"}, Engine: "origin analysis + order (SSA)",
-		Text: "what a record array writes is computed from the record being written, in that call: in both LocationRecordArray.Put implementations no field of the receiver is written (no translation is remembered between calls – block indices are relative and change meaning with every rotation), the block reference stored is the result of resolver.BlockIndexToBlockReference applied to this record's BlockIndex in this call, and on the block device the checksum is computed after every other byte of the record was filled in (with the hash seed the same resolver call returned) and nothing but the checksum is written afterwards",
+		Text:  "what a record array writes is computed from the record being written, in that call: in both LocationRecordArray.Put implementations no field of the receiver is written (no translation is remembered between calls – block indices are relative and change meaning with every rotation), the block reference stored is the result of resolver.BlockIndexToBlockReference applied to this record's BlockIndex in this call, and on the block device the checksum is computed after every other byte of the record was filled in (with the hash seed the same resolver call returned) and nothing but the checksum is written afterwards",
 		Floor: 5, MustExist: true, Run: runR067,
 	})
 }
@@ -2649,12 +2650,12 @@ func runR067(c *Ctx) {
 func init() {
 	register(&Rule{
 		ID: "R05.7", Props: []string{"C05"}, Engine: "guard (SSA dominance) + provenance",
-		Text: "a touch never re-points an entry at a copy that is itself about to be evicted: in the read / existence paths of both local stores (everything except the upload method Put) every KeyLocationMap.Put whose Location was read from the KeyLocationMap in the same function – rather than returned by a put finalizer – is dominated by the false edge of the needs-refresh verdict of LocationBlobMap.Get applied to that very location",
+		Text:  "a touch never re-points an entry at a copy that is itself about to be evicted: in the read / existence paths of both local stores (everything except the upload method Put) every KeyLocationMap.Put whose Location was read from the KeyLocationMap in the same function – rather than returned by a put finalizer – is dominated by the false edge of the needs-refresh verdict of LocationBlobMap.Get applied to that very location",
 		Floor: 1, MustExist: true, Run: runR057,
 	})
 	register(&Rule{
 		ID: "R05.8", Props: []string{"C05", "C01"}, Engine: "path automaton (SSA)",
-		Text: "whatever cannot be found is reported missing: in FindMissing of both local stores, on every path on which a lookup (KeyLocationMap.Get / getLeastSpecificLookupEntry) failed with NOT_FOUND, the digest is added to the set of missing objects before the next lookup or the final answer (also in the second, refreshing scan: an object that vanished between the scans must not be reported present)",
+		Text:  "whatever cannot be found is reported missing: in FindMissing of both local stores, on every path on which a lookup (KeyLocationMap.Get / getLeastSpecificLookupEntry) failed with NOT_FOUND, the digest is added to the set of missing objects before the next lookup or the final answer (also in the second, refreshing scan: an object that vanished between the scans must not be reported present)",
 		Floor: 4, MustExist: true, Run: runR058,
 	})
 }
@@ -2866,7 +2867,7 @@ func runR058(c *Ctx) {
 func init() {
 	register(&Rule{
 		ID: "R02.9", Props: []string{"C02", "C03"}, Engine: "difference-bound analysis (SSA)",
-		Text: "no epoch that is not synchronised reaches the state file: in PersistentBlockList.GetPersistentState every re-slice of epochHashSeeds that is handed to a BlockState ends at an index that is proven – from the loop condition and the clamp – to be at most synchronizedEpochs (hash seeds of later epochs would let records of unsynchronised, possibly lost data validate after a crash)",
+		Text:  "no epoch that is not synchronised reaches the state file: in PersistentBlockList.GetPersistentState every re-slice of epochHashSeeds that is handed to a BlockState ends at an index that is proven – from the loop condition and the clamp – to be at most synchronizedEpochs (hash seeds of later epochs would let records of unsynchronised, possibly lost data validate after a crash)",
 		Floor: 1, MustExist: true, Run: runR029,
 	})
 }
@@ -2921,8 +2922,8 @@ func runR029(c *Ctx) {
 
 func init() {
 	register(&Rule{
-		ID: "R04.6", Props: []string{"C04", "C02", "C01"}, Engine: "path automaton (SSA)",
-		Text: "a region that is handed out leaves the free list: in blockDeviceBackedBlockAllocator.NewBlock and NewBlockAtLocation every path that creates a block object (newBlockObject) has first stored the free list re-sliced to one element less (freeOffsets[1:] or freeOffsets[:len-1]); a list that keeps its length still offers the region – or a duplicate of another one – to a later allocation while the first block is live",
+		ID: "R04.6", Props: []string{"C04", "C02", "C01", "C03"}, Engine: "path automaton (SSA)",
+		Text:  "a region that is handed out leaves the free list: in blockDeviceBackedBlockAllocator.NewBlock and NewBlockAtLocation every path that creates a block object (newBlockObject) has first stored the free list re-sliced to one element less (freeOffsets[1:] or freeOffsets[:len-1]); a list that keeps its length still offers the region – or a duplicate of another one – to a later allocation while the first block is live",
 		Floor: 2, MustExist: true, Run: runR046,
 	})
 }
@@ -3001,12 +3002,12 @@ func runR046(c *Ctx) {
 func init() {
 	register(&Rule{
 		ID: "R01.9", Props: []string{"C01", "C04"}, Engine: "origin analysis (SSA)",
-		Text: "in-memory blocks never share memory: inMemoryBlock.data is only ever initialised with a slice allocated (make) for that block in the same function, and the memory of a block is never stored into allocator or package state (appended to a list, kept in a field or a global) – readers of an in-memory block hold plain sub-slices of its memory without a reference count, so memory that is handed out again is overwritten under them without any error",
+		Text:  "in-memory blocks never share memory: inMemoryBlock.data is only ever initialised with a slice allocated (make) for that block in the same function, and the memory of a block is never stored into allocator or package state (appended to a list, kept in a field or a global) – readers of an in-memory block hold plain sub-slices of its memory without a reference count, so memory that is handed out again is overwritten under them without any error",
 		Floor: 1, MustExist: true, Run: runR019,
 	})
 	register(&Rule{
 		ID: "R01.10", Props: []string{"C01"}, Engine: "loop-invariant edge facts (SSA)",
-		Text: "one shared-sector image per physical sector: in blockDeviceBackedBlock.Put the existing shared-sector image is kept for the next object only on an edge where it is non-nil and the allocation did not advance the block's sector cursor (sector count <= 0); whenever the allocation ends in a later sector a new image is created – otherwise the images of the object's first and last sector are one buffer and flushing one sector overwrites the other",
+		Text:  "one shared-sector image per physical sector: in blockDeviceBackedBlock.Put the existing shared-sector image is kept for the next object only on an edge where it is non-nil and the allocation did not advance the block's sector cursor (sector count <= 0); whenever the allocation ends in a later sector a new image is created – otherwise the images of the object's first and last sector are one buffer and flushing one sector overwrites the other",
 		Floor: 1, MustExist: true, Run: runR0110,
 	})
 }
@@ -3183,12 +3184,12 @@ func runR0110(c *Ctx) {
 func init() {
 	register(&Rule{
 		ID: "R08.3", Props: []string{"C08"}, Engine: "guard (SSA dominance)",
-		Text: "condemned blocks leave before the list is looked at: in OldCurrentNewLocationBlobMap.findBlockWithSpace every BlockList.PushBack and BlockList.HasSpace call is only reachable through the exit edge of the loop that releases blocks while totalBlocksReleased < totalBlocksToBeReleased (so the layout counters and the list agree again before blocks are added or asked for space; otherwise a store whose newest block was condemned ends up with an empty list and panics on the next upload)",
+		Text:  "condemned blocks leave before the list is looked at: in OldCurrentNewLocationBlobMap.findBlockWithSpace every BlockList.PushBack and BlockList.HasSpace call is only reachable through the exit edge of the loop that releases blocks while totalBlocksReleased < totalBlocksToBeReleased (so the layout counters and the list agree again before blocks are added or asked for space; otherwise a store whose newest block was condemned ends up with an empty list and panics on the next upload)",
 		Floor: 3, MustExist: true, Run: runR083,
 	})
 	register(&Rule{
 		ID: "R03.4", Props: []string{"C03", "C05"}, Engine: "guard (SSA dominance), sibling agreement",
-		Text: "one policy decides the layout: in OldCurrentNewLocationBlobMap (constructor and findBlockWithSpace alike) the count of new blocks is incremented only on the true edge of the growth policy's ShouldGrowNewBlocks, and the count of current blocks only on the true edge of ShouldGrowCurrentBlocks or as the transfer of an excess new block (same block of code decrements the new count); restored blocks that the policy would keep are therefore not pushed into the old group and released at start-up",
+		Text:  "one policy decides the layout: in OldCurrentNewLocationBlobMap (constructor and findBlockWithSpace alike) the count of new blocks is incremented only on the true edge of the growth policy's ShouldGrowNewBlocks, and the count of current blocks only on the true edge of ShouldGrowCurrentBlocks or as the transfer of an excess new block (same block of code decrements the new count); restored blocks that the policy would keep are therefore not pushed into the old group and released at start-up",
 		Floor: 4, MustExist: true, Run: runR034,
 	})
 }
@@ -3313,12 +3314,12 @@ const completenessRel = "pkg/blobstore/completenesschecking"
 func init() {
 	register(&Rule{
 		ID: "R13.5", Props: []string{"C13"}, Engine: "guard (SSA dominance) + loop-carried value shape",
-		Text: "the Tree size limit is a budget over all Trees of one ActionResult: in checkCompleteness every read of a Tree from the CAS is dominated by `size of this Tree <= remaining budget`, where the remaining budget is a loop-carried value that starts at maximumTotalTreeSizeBytes and is decreased by the size of every Tree that was admitted; and findMissingQueue.add enqueues every digest it is given – the only conditions under which a digest is not added to the pending set are: the digest pointer is nil, or an error is returned",
+		Text:  "the Tree size limit is a budget over all Trees of one ActionResult: in checkCompleteness every read of a Tree from the CAS is dominated by `size of this Tree <= remaining budget`, where the remaining budget is a loop-carried value that starts at maximumTotalTreeSizeBytes and is decreased by the size of every Tree that was admitted; and findMissingQueue.add enqueues every digest it is given – the only conditions under which a digest is not added to the pending set are: the digest pointer is nil, or an error is returned",
 		Floor: 2, MustExist: true, Run: runR135,
 	})
 	register(&Rule{
 		ID: "R13.6", Props: []string{"C13"}, Engine: "path automaton (SSA)",
-		Text: "a Tree that ends in the middle of a field is an error: in util.VisitProtoBytesFields, once a bufio.Reader.Discard reported any error – io.EOF included – no path continues with the next field or returns nil (only the Peek that starts a field may treat io.EOF with nothing buffered as the clean end of the message)",
+		Text:  "a Tree that ends in the middle of a field is an error: in util.VisitProtoBytesFields, once a bufio.Reader.Discard reported any error – io.EOF included – no path continues with the next field or returns nil (only the Peek that starts a field may treat io.EOF with nothing buffered as the clean end of the message)",
 		Floor: 2, MustExist: true, Run: runR136,
 	})
 }
@@ -3519,12 +3520,12 @@ func runR136(c *Ctx) {
 func init() {
 	register(&Rule{
 		ID: "R14.7", Props: []string{"C14"}, Engine: "flow (result provenance)",
-		Text: "the client's FindMissing answers with everything it collected: in every function of pkg/blobstore/grpcclients that converts missing digests of a response into a digest.SetBuilder (one RPC per instance name and digest function), every return with a nil error returns Build() of that very builder – never an empty or partial set decided inside the loop over the groups",
+		Text:  "the client's FindMissing answers with everything it collected: in every function of pkg/blobstore/grpcclients that converts missing digests of a response into a digest.SetBuilder (one RPC per instance name and digest function), every return with a nil error returns Build() of that very builder – never an empty or partial set decided inside the loop over the groups",
 		Floor: 2, MustExist: true, Run: runR147,
 	})
 	register(&Rule{
 		ID: "R16.7", Props: []string{"C16"}, Engine: "who-may-call (closure body)",
-		Text: "only operations without a visible partial effect are retried as a whole: the function handed to casErrorHandlingBuffer.tryRepeatedly calls nothing on the buffer it is given except ReadAt, ToProto and ToByteSlice (whose results are discarded on failure); streaming into a caller's writer or handing out a reader must go through the stitching readers, otherwise the bytes delivered before the fault are delivered again",
+		Text:  "only operations without a visible partial effect are retried as a whole: the function handed to casErrorHandlingBuffer.tryRepeatedly calls nothing on the buffer it is given except ReadAt, ToProto and ToByteSlice (whose results are discarded on failure); streaming into a caller's writer or handing out a reader must go through the stitching readers, otherwise the bytes delivered before the fault are delivered again",
 		Floor: 3, MustExist: true, Run: runR167,
 	})
 }
@@ -3640,27 +3641,27 @@ func runR167(c *Ctx) {
 func init() {
 	register(&Rule{
 		ID: "R19.8", Props: []string{"C19"}, Engine: "flow (constructor wiring, configuration package)",
-		Text: "each demultiplexed backend is known by the prefix it is registered under: in the configuration of the demultiplexing backend the name stored for a backend (which FindMissing uses to partition digests per backend) is String() of the very prefix given to the trie's Set in the same iteration, that same prefix is the match side of the backend's InstanceNamePatcher, and the index stored in the trie is the position the backend is appended at",
+		Text:  "each demultiplexed backend is known by the prefix it is registered under: in the configuration of the demultiplexing backend the name stored for a backend (which FindMissing uses to partition digests per backend) is String() of the very prefix given to the trie's Set in the same iteration, that same prefix is the match side of the backend's InstanceNamePatcher, and the index stored in the trie is the position the backend is appended at",
 		Floor: 3, MustExist: true, Run: runR198,
 	})
 	register(&Rule{
 		ID: "R19.9", Props: []string{"C19"}, Engine: "sibling agreement (SSA, per block)",
-		Text: "the hierarchical fallback walks parent and child up together: in hierarchicalInstanceNamesGetFromCompositeErrorHandler.OnError every shortening of parentDigests is accompanied, in the same basic block, by the same shortening of childDigests, and the digests handed to the next GetFromComposite are the last elements of the two lists",
+		Text:  "the hierarchical fallback walks parent and child up together: in hierarchicalInstanceNamesGetFromCompositeErrorHandler.OnError every shortening of parentDigests is accompanied, in the same basic block, by the same shortening of childDigests, and the digests handed to the next GetFromComposite are the last elements of the two lists",
 		Floor: 2, MustExist: true, Run: runR199,
 	})
 	register(&Rule{
 		ID: "R20.7", Props: []string{"C20", "C10"}, Engine: "provenance of slice bounds (SSA)",
-		Text: "the key without instance name is the packed digest up to the end of its size: in Digest.GetKey the KeyWithoutInstance result is a prefix of the value (it starts at 0, so that the digest function is part of the key) whose end is exactly the size-end position reported by unpack() – not one further, which would include the separator and make it equal to the instance-aware key of the empty instance name",
+		Text:  "the key without instance name is the packed digest up to the end of its size: in Digest.GetKey the KeyWithoutInstance result is a prefix of the value (it starts at 0, so that the digest function is part of the key) whose end is exactly the size-end position reported by unpack() – not one further, which would include the separator and make it equal to the instance-aware key of the empty instance name",
 		Floor: 1, MustExist: true, Run: runR207,
 	})
 	register(&Rule{
 		ID: "R20.8", Props: []string{"C20", "C19"}, Engine: "who-may-parse (SSA)",
-		Text: "the packed representation of a Digest is parsed in one place: no function of pkg/digest other than Digest.unpack searches or splits a Digest's value string (strings.Index*, LastIndex*, Split*, Cut, Fields*) – instance names may contain every character the packed form uses as a separator, so only the length-driven walk of unpack finds the boundaries",
+		Text:  "the packed representation of a Digest is parsed in one place: no function of pkg/digest other than Digest.unpack searches or splits a Digest's value string (strings.Index*, LastIndex*, Split*, Cut, Fields*) – instance names may contain every character the packed form uses as a separator, so only the length-driven walk of unpack finds the boundaries",
 		Floor: 1, MustExist: false, Run: runR208,
 	})
 	register(&Rule{
 		ID: "R20.9", Props: []string{"C20"}, Engine: "guard (SSA dominance)",
-		Text: "set filtering looks at every element, and unknown digest functions are rejected: in Set.RemoveEmptyBlob an element is appended to the result individually only under its own GetSizeBytes() != 0 test, and the only range copied in bulk is the prefix before the first empty element; in getBareFunction every non-nil result is returned on the true edge of an equality test of the digest function with one specific enum value (length-based inference only for UNKNOWN)",
+		Text:  "set filtering looks at every element, and unknown digest functions are rejected: in Set.RemoveEmptyBlob an element is appended to the result individually only under its own GetSizeBytes() != 0 test, and the only range copied in bulk is the prefix before the first empty element; in getBareFunction every non-nil result is returned on the true edge of an equality test of the digest function with one specific enum value (length-based inference only for UNKNOWN)",
 		Floor: 8, MustExist: true, Run: runR209,
 	})
 }
@@ -4006,7 +4007,7 @@ func isRangeKey(v ssa.Value) bool {
 func init() {
 	register(&Rule{
 		ID: "R09.9", Props: []string{"C09", "C14", "C16"}, Engine: "return-shape (SSA, every implementation of an interface method)",
-		Text: "a chunk is never delivered together with an error: in every implementation of buffer.ChunkReader.Read in the module each return either carries no data (nil) or a nil error – or forwards both results of one call of another ChunkReader's Read (or of a helper of the same type) unchanged; every consumer (the validating readers first of all) treats io.EOF as `no more data` and drops a chunk that comes with it, so the tail of a healthy object would be reported as missing",
+		Text:  "a chunk is never delivered together with an error: in every implementation of buffer.ChunkReader.Read in the module each return either carries no data (nil) or a nil error – or forwards both results of one call of another ChunkReader's Read (or of a helper of the same type) unchanged; every consumer (the validating readers first of all) treats io.EOF as `no more data` and drops a chunk that comes with it, so the tail of a healthy object would be reported as missing",
 		Floor: 8, MustExist: true, Run: runR099,
 	})
 }
@@ -4087,5 +4088,314 @@ func runR099(c *Ctx) {
 	}
 	if len(impls) == 0 {
 		c.Fail("buffer.ChunkReader", "no-data-with-error", "-", "no implementation of ChunkReader.Read found")
+	}
+}
+
+// ---------------------------------------------------------------------------
+// R01.14, R02.10, R02.11, R06.8
+
+func init() {
+	register(&Rule{
+		ID: "R01.14", Props: []string{"C01", "C04"}, Engine: "guard + order (SSA)",
+		Text:  "a block writer's last sector is written only after a complete copy, and nothing is written after the writer let go of the block: in the function blockDeviceBackedBlock.Put returns, flush() of the block writer is called only on the nil edge of the IntoWriter that fed it (after a failed copy the writer still points at the first, shared sector – flushing would write the image of the last sector over a committed neighbour), and no path leads from the Release() that drops the writer's use count to a flush or to IntoWriter",
+		Floor: 2, MustExist: true, Run: runR0114,
+	})
+	register(&Rule{
+		ID: "R02.10", Props: []string{"C02", "C03", "C07"}, Engine: "table (literal completeness) + flow",
+		Text:  "what is restored counts as written, synchronising and synchronised: in NewPersistentBlockList every re-attached block's bookkeeping record sets writtenOffsetBytes, synchronizingOffsetBytes and synchronizedOffsetBytes – all three – from the persisted write offset of that block and its epoch count from the persisted seeds; and the constructor sets both synchronizingEpochs and synchronizedEpochs to the number of restored epochs",
+		Floor: 5, MustExist: true, Run: runR0210,
+	})
+	register(&Rule{
+		ID: "R02.11", Props: []string{"C02", "C07", "C03"}, Engine: "guard + shape (SSA)",
+		Text:  "when a block leaves, the epochs it carried leave every counter: PersistentBlockList.PopFront lowers synchronizingEpochs and synchronizedEpochs, each by the popped block's epoch count and each clamped at zero by a comparison of that count with the same counter (never by a shared amount derived from the other counter)",
+		Floor: 2, MustExist: true, Run: runR0211,
+	})
+	register(&Rule{
+		ID: "R06.8", Props: []string{"C06", "C02"}, Engine: "table agreement (writer vs reader)",
+		Text:  "the record codec is symmetric: every field blockDeviceBackedLocationRecordArray.Put serialises with binary.LittleEndian.PutUintN at a constant offset of the record is read back by Get with UintN of the same width at the same offset, and vice versa (the key bytes are copied at the same offset in both directions)",
+		Floor: 5, MustExist: true, Run: runR068,
+	})
+}
+
+func runR0114(c *Ctx) {
+	put := c.Method(localRel, "blockDeviceBackedBlock", "Put")
+	if put == nil {
+		c.Broken("blockDeviceBackedBlock.Put not found")
+		return
+	}
+	n := 0
+	withAnon(put, func(g *ssa.Function) {
+		if g == put {
+			return
+		}
+		var into *ssa.Call
+		var flushes, releases []*ssa.Call
+		allInstrs(g, func(ins ssa.Instruction) {
+			cl, ok := ins.(*ssa.Call)
+			if !ok {
+				return
+			}
+			if cl.Call.IsInvoke() && cl.Call.Method.Name() == "IntoWriter" {
+				into = cl
+			}
+			if sc := cl.Call.StaticCallee(); sc != nil {
+				switch sc.Name() {
+				case "flush":
+					flushes = append(flushes, cl)
+				case "Release":
+					releases = append(releases, cl)
+				}
+			}
+		})
+		if into == nil {
+			return
+		}
+		name := FuncName(g)
+		for _, f := range flushes {
+			n++
+			okNil := dominatedByErrNil(f.Block(), into)
+			if !okNil {
+				// the error lives in a cell (it is captured by the finalizer that is returned): the
+				// nil test is on a load of that cell which follows the store of IntoWriter's result
+				// with no other store in between
+				edgeFacts(f.Block(), func(cond ssa.Value, val bool) bool {
+					cnd, v := cond, val
+					for {
+						if u, ok := cnd.(*ssa.UnOp); ok && u.Op == token.NOT {
+							cnd, v = u.X, !v
+							continue
+						}
+						break
+					}
+					x, nilWhenTrue, ok := nilTest(cnd)
+					if !ok || nilWhenTrue != v {
+						return true
+					}
+					ld, ok := x.(*ssa.UnOp)
+					if !ok || ld.Op != token.MUL {
+						return true
+					}
+					cell := ld.X
+					var last ssa.Value
+					for _, i2 := range ld.Block().Instrs {
+						if i2 == ssa.Instruction(ld) {
+							break
+						}
+						if st, ok := i2.(*ssa.Store); ok && st.Addr == cell {
+							last = st.Val
+						}
+					}
+					if last == ssa.Value(into) {
+						okNil = true
+						return false
+					}
+					return true
+				})
+			}
+			c.Check(okNil, name, "flush-after-copy", c.Pos(f.Pos()), "flushed only after the copy succeeded", "the block writer is flushed although the copy into it may have failed: after an early failure the writer still points at the object's first sector, which it shares with the previous object, and the flush writes the image of the last sector there – the tail of an already committed neighbour is overwritten")
+		}
+		for _, r := range releases {
+			n++
+			bad := false
+			for _, f := range append(append([]*ssa.Call{}, flushes...), into) {
+				if reachableAvoiding(r, f, func(ssa.Instruction) bool { return false }) {
+					bad = true
+				}
+			}
+			c.Check(!bad, name, "release-last", c.Pos(r.Pos()), "the use count is dropped after the last write", "the writer's reference to the block is dropped before its last write (flush): the block can be released and its region handed to a new block in between, and the stale sector write lands in the new block's data")
+		}
+	})
+	if n == 0 {
+		c.Fail(FuncName(put), "flush-after-copy", c.Pos(put.Pos()), "the writer closure (IntoWriter · flush · Release) was not found")
+	}
+}
+
+func runR0210(c *Ctx) {
+	ctor := c.Func(localRel, "NewPersistentBlockList")
+	T := c.LookupType(localRel, "persistentBlockInfo")
+	if ctor == nil || T == nil {
+		c.Broken("NewPersistentBlockList / persistentBlockInfo not found")
+		return
+	}
+	name := FuncName(ctor)
+	n := 0
+	allInstrs(ctor, func(ins ssa.Instruction) {
+		cl, ok := ins.(*ssa.Call)
+		if !ok {
+			return
+		}
+		if _, isApp := isAppend(cl); !isApp {
+			return
+		}
+		sl, ok := cl.Type().Underlying().(*types.Slice)
+		if !ok || !types.Identical(sl.Elem(), T) {
+			return
+		}
+		n++
+		fs := literalStores(ctor, cl.Call.Args[1])
+		isPersistedOffset := func(v ssa.Value) bool {
+			if v == nil {
+				return false
+			}
+			f, _ := loadedField(stripConv(v))
+			return f != nil && f.Name() == "WriteOffsetBytes"
+		}
+		for _, fld := range []string{"writtenOffsetBytes", "synchronizingOffsetBytes", "synchronizedOffsetBytes"} {
+			c.Check(isPersistedOffset(fs[fld]), name, "restored-"+fld, c.Pos(cl.Pos()), "set from the persisted write offset", "a re-attached block starts with "+fld+" = 0 instead of its persisted write offset: the next state file records the block as (partly) empty, and after a further restart new uploads are written over objects that were acknowledged and synchronised")
+		}
+		okEpochs := false
+		if lc, ok := stripConv(fs["epochCount"]).(*ssa.Call); ok {
+			if bi, ok := lc.Call.Value.(*ssa.Builtin); ok && bi.Name() == "len" {
+				if f, _ := loadedField(lc.Call.Args[0]); f != nil && f.Name() == "EpochHashSeeds" {
+					okEpochs = true
+				}
+			}
+		}
+		c.Check(okEpochs, name, "restored-epochCount", c.Pos(cl.Pos()), "set from the persisted seeds", "a re-attached block's epoch count is not the number of its persisted epoch seeds")
+	})
+	if n == 0 {
+		c.Fail(name, "restored-block", c.Pos(ctor.Pos()), "the constructor does not re-attach persisted blocks")
+	}
+	for _, fld := range []string{"synchronizingEpochs", "synchronizedEpochs"} {
+		ok := false
+		allInstrs(ctor, func(ins ssa.Instruction) {
+			st, isS := ins.(*ssa.Store)
+			if !isS {
+				return
+			}
+			if f := fieldOf(st.Addr); f == nil || f.Name() != fld {
+				return
+			}
+			if isLenOfField(stripConv(st.Val), "epochHashSeeds") {
+				ok = true
+			}
+		})
+		c.Check(ok, name, "restored-"+fld, c.Pos(ctor.Pos()), "starts at the number of restored epochs", fld+" is not initialised to the number of restored epochs: uploads into a restored block join an epoch that is already in the state file (their records validate after a crash although the data was never flushed) and do not wake the syncer")
+	}
+}
+
+func runR0211(c *Ctx) {
+	fn := c.Method(localRel, "PersistentBlockList", "PopFront")
+	if fn == nil {
+		c.Broken("PersistentBlockList.PopFront not found")
+		return
+	}
+	name := FuncName(fn)
+	isEpochCount := func(v ssa.Value) bool {
+		f := fieldOf(stripConv(v))
+		return f != nil && f.Name() == "epochCount"
+	}
+	for _, fld := range []string{"synchronizingEpochs", "synchronizedEpochs"} {
+		isCounter := func(v ssa.Value) bool {
+			f, base := loadedField(stripConv(v))
+			return f != nil && f.Name() == fld && isReceiverValue(fn, base)
+		}
+		nStores, bad := 0, ""
+		allInstrs(fn, func(ins ssa.Instruction) {
+			st, ok := ins.(*ssa.Store)
+			if !ok {
+				return
+			}
+			if f := fieldOf(st.Addr); f == nil || f.Name() != fld {
+				return
+			}
+			nStores++
+			if k, isK := constInt(st.Val); isK && k == 0 {
+				// clamped: on the edge epochCount >= counter
+				if !dominatedByCmpDepth(st.Block(), func(op token.Token, x, y ssa.Value) bool {
+					return (op == token.GEQ && isEpochCount(x) && isCounter(y)) || (op == token.LEQ && isCounter(x) && isEpochCount(y))
+				}, 2) {
+					bad = "the counter is reset without a comparison of the popped block's epoch count with this counter"
+				}
+				return
+			}
+			if bo, isB := st.Val.(*ssa.BinOp); isB && bo.Op == token.SUB && isCounter(bo.X) && isEpochCount(bo.Y) {
+				if !dominatedByCmpDepth(st.Block(), func(op token.Token, x, y ssa.Value) bool {
+					return (op == token.LSS && isEpochCount(x) && isCounter(y)) || (op == token.GTR && isCounter(x) && isEpochCount(y))
+				}, 2) {
+					bad = "the subtraction is not guarded by `epoch count < counter`"
+				}
+				return
+			}
+			bad = "the counter is lowered by something other than the popped block's own epoch count"
+		})
+		if nStores == 0 {
+			bad = "the counter is not lowered at all"
+		}
+		c.Check(bad == "", name, "epochs-leave-"+fld, c.Pos(fn.Pos()), "lowered by the popped block's epoch count, clamped by itself", fld+": "+bad+" – after a rotation the counter no longer equals the number of (synchronising / synchronised) epochs that still exist, so later uploads join an epoch whose seed is already persisted or the syncer is never woken")
+	}
+}
+
+func runR068(c *Ctx) {
+	put := c.Method(localRel, "blockDeviceBackedLocationRecordArray", "Put")
+	get := c.Method(localRel, "blockDeviceBackedLocationRecordArray", "Get")
+	if put == nil || get == nil {
+		c.Broken("blockDeviceBackedLocationRecordArray.Put/Get not found")
+		return
+	}
+	// (offset, width) of every fixed-width field access on a [N]byte record
+	collect := func(fn *ssa.Function, prefix string) map[int64]int {
+		out := map[int64]int{}
+		allInstrs(fn, func(ins ssa.Instruction) {
+			cl, ok := ins.(*ssa.Call)
+			if !ok {
+				return
+			}
+			o := calleeObjOf(cl.Common())
+			if o == nil || o.Pkg() == nil || o.Pkg().Path() != "encoding/binary" || !strings.HasPrefix(o.Name(), prefix) {
+				return
+			}
+			width := 0
+			fmt.Sscanf(strings.TrimPrefix(o.Name(), prefix), "%d", &width)
+			if width == 0 {
+				return
+			}
+			// the byte slice argument: record[off:]
+			for _, a := range cl.Call.Args {
+				if sl, ok := a.(*ssa.Slice); ok {
+					off := int64(0)
+					if sl.Low != nil {
+						if k, isK := constInt(sl.Low); isK {
+							off = k
+						} else {
+							return
+						}
+					}
+					if _, isArr := sl.X.Type().Underlying().(*types.Pointer); isArr {
+						out[off] = width
+					}
+				}
+			}
+		})
+		return out
+	}
+	w := collect(put, "PutUint")
+	r := collect(get, "Uint")
+	name := FuncName(get)
+	if len(w) < 4 || len(r) < 4 {
+		c.Fail(name, "codec", c.Pos(get.Pos()), "the fixed-width fields of the record were not found in Put / Get")
+		return
+	}
+	var offs []int64
+	seen := map[int64]bool{}
+	for o := range w {
+		if !seen[o] {
+			seen[o] = true
+			offs = append(offs, o)
+		}
+	}
+	for o := range r {
+		if !seen[o] {
+			seen[o] = true
+			offs = append(offs, o)
+		}
+	}
+	for i := 1; i < len(offs); i++ {
+		for j := i; j > 0 && offs[j] < offs[j-1]; j-- {
+			offs[j], offs[j-1] = offs[j-1], offs[j]
+		}
+	}
+	for _, o := range offs {
+		c.Check(w[o] == r[o] && w[o] != 0, name, fmt.Sprintf("codec-field@%d", o), c.Pos(get.Pos()), fmt.Sprintf("%d bits written and read", w[o]), fmt.Sprintf("the record field at byte offset %d is written with %d bits but read with %d bits: locations read back differ from the locations stored (e.g. offsets above 4 GiB come back truncated), so lookups return places that were never stored and the age comparison runs on wrong values", o, w[o], r[o]))
 	}
 }
